@@ -982,7 +982,7 @@ fn c07(ctx: &Ctx, gi: usize, ri: usize, rep: &mut Report, note: &dyn Fn(&str)) {
         }
         rep.cases += 1;
         let drive0 = matches!(kind, Kind::Normal | Kind::Silent) && e.rules[ri].pest_atomic.is_some();
-        let w = what::PP | if drive0 { what::ATOM0 } else { 0 };
+        let w = what::PP | what::PF | what::CF | if drive0 { what::ATOM0 } else { 0 };
         let o = match typed(e, ri, &case.req(w)) {
             Ok(o) => o,
             Err(p) => {
@@ -1026,6 +1026,17 @@ fn c07(ctx: &Ctx, gi: usize, ri: usize, rep: &mut Report, note: &dyn Fn(&str)) {
                     "token-spans-mismatch"
                 };
                 rep.violation(case.violation(sig, show_toks(g, &exp), show_toks(g, &pp.toks), String::new()));
+            }
+        }
+        // the trailing skip of a full parse (non-atomic entry rules only), on the parse and on the check path
+        if let (Some(full), Some(pf), Some(cf)) = (b.m.full_ok, o.pf.as_ref(), o.cf.as_ref()) {
+            if pp.ok == b.exp_ok && (!pp.ok || pp.end == b.exp_end) && b.m.ok.is_some() == b.exp_ok && !entry_is_inherited_skip_rule(g, ri) {
+                for (label, c) in [("try_parse", pf), ("try_check", cf)] {
+                    if c.ok != full {
+                        let sig = if nonatomic_skip { "skip-rule-declared-nonatomic-not-matched-atomically" } else { "full-parse-trailing-skip" };
+                        rep.violation(case.violation(sig, format!("full={}", full), format!("{} ok={}", label, c.ok), "prefix match, trailing skip (non-atomic entry rules only), end of input".into()));
+                    }
+                }
             }
         }
         if drive0 {
